@@ -957,7 +957,7 @@ def g1_configs(quick):
     c["shape"] = dict(BASE, MaxNodes=3 if q else 4, MaxAlias=0 if q else 1, Fields=["id", "a", "u", "nope", "__typename"] if q else ["id", "val", "a", "node", "u", "nope", "__typename"],
                       Conds=["A", "C", "Int", "Nope"] if q else ["A", "B", "C", "Node", "U", "Int", "Nope"])
     c["merge"] = dict(BASE, MaxNodes=4 if q else 5, MaxAlias=2, Fields=["node", "id", "name"], Conds=["A"] if q else ["A", "B"], OpenOnly=["node"], LeafOnly=["id", "name"])
-    c["merge2"] = dict(BASE, MaxNodes=4 if q else 5, MaxAlias=0 if q else 1, MaxArgs=2, Fields=["a", "echo"] if q else ["a", "echo", "val"], Conds=[] if q else ["A"], OpenOnly=["a"], LeafOnly=["echo", "val"], ArgPool=["x=int1", "x=int2"])
+    c["merge2"] = dict(BASE, MaxNodes=3 if q else 5, MaxAlias=0 if q else 1, MaxArgs=2, Fields=["a", "echo"] if q else ["a", "echo", "val"], Conds=[] if q else ["A"], OpenOnly=["a"], LeafOnly=["echo", "val"], ArgPool=["x=int1", "x=int2"])
     c["args"] = dict(BASE, MaxNodes=1 if q else 2, MaxArgs=2, MaxVars=1, OpHeads=["query:Q"], Fields=["fi", "fr", "fd", "f2", "nope"], LeafOnly=["fi", "fr", "fd", "f2", "nope"],
                      ArgPool=["x=int1", "x=str", "x=null", "x=$v", "y=str", "zz=int1"], VarPool=["v|Int||", "v|Int!||", "v|String||"])
     c["argsin"] = dict(BASE, MaxNodes=1, MaxArgs=1 if q else 2, MaxVars=1, OpHeads=["query:Q"], Fields=["fe", "fin", "fli"], LeafOnly=["fe", "fin", "fli"],
@@ -965,7 +965,7 @@ def g1_configs(quick):
     c["argslist"] = dict(BASE, MaxNodes=1, MaxArgs=1 if q else 2, MaxVars=1, OpHeads=["query:Q"], Fields=["fl", "fln"], LeafOnly=["fl", "fln"], ArgPool=ARGS_LIST,
                          VarPool=["v|Int||", "v|[Int!]||"] if q else ["v|Int||", "v|Int!||", "v|[Int!]||", "v|[Int]||", "v|[Int]!||", "v|String||"])
     c["dirs"] = dict(BASE, MaxNodes=2, MaxDirs=2, MaxVars=1, OpHeads=["query:Q"] if q else ["query:Q", "mutation:M"], Fields=["n", "__typename"], LeafOnly=["n", "__typename"], Conds=["Query"],
-                     DirPool=DIRS_ALL[:6] if q else DIRS_ALL, VarPool=["v|Boolean!||", "v|Int||"] if q else ["v|Boolean!||", "v|Boolean||", "v|Boolean|true|", "v|Int||"])
+                     DirPool=["skip(if=true)", "skip", "skip(if=$v)", "nope", "deprecated"] if q else DIRS_ALL, VarPool=["v|Boolean!||", "v|Int||"] if q else ["v|Boolean!||", "v|Boolean||", "v|Boolean|true|", "v|Int||"])
     c["vardirs"] = dict(BASE, MaxNodes=1, MaxDirs=1, MaxVars=1, OpHeads=["query:Q"], Fields=["n", "fb"], LeafOnly=["n", "fb"], MaxArgs=1, ArgPool=["b=$v"],
                         VarPool=["v|Boolean||", "v|Boolean||nope", "v|Boolean||skip(if=true)", "v|Boolean||skip(if=true)+skip(if=true)", "v|Boolean||nope+nope", "v|Boolean||deprecated", "v|Boolean||tag(v=int1)+tag(v=int1)"],
                         DirPool=["skip(if=$v)"])
@@ -973,7 +973,7 @@ def g1_configs(quick):
                      ArgPool=["x=$v", "x=$zz", "l=$v", "l=l$v", "i=$v", "i=obj$v", "e=$v", "x=int1"], VarPool=VARS_ALL)
     c["vars2"] = dict(BASE, MaxNodes=2, MaxArgs=2, MaxVars=2, OpHeads=["query:Q"], Fields=["fi", "f2"], LeafOnly=["fi", "f2"], ArgPool=["x=$v", "x=$w", "y=$w"] if q else ["x=$v", "x=$w", "y=$w", "y=$v", "x=int1"],
                       VarPool=["v|Int||", "w|String||", "w|Int||"] if q else ["v|Int||", "v|String||", "w|String||", "w|Int||"])
-    c["frags"] = dict(BASE, MaxNodes=3 if q else 4, MaxSecs=3, Fields=["n"], LeafOnly=["n"], Conds=["Query", "A"] if q else ["Query", "A", "Int", "Nope"], FragNames=["F1", "F2"], Spreads=["F1", "F2", "Nope"])
+    c["frags"] = dict(BASE, MaxNodes=3 if q else 4, MaxSecs=3, Fields=["n"], LeafOnly=["n"], Conds=["Query"] if q else ["Query", "A", "Int", "Nope"], FragNames=["F1", "F2"], Spreads=["F1", "F2", "Nope"])
     c["fragvars"] = dict(BASE, MaxNodes=3, MaxSecs=2 if q else 3, MaxArgs=1, MaxVars=1, OpHeads=["query:Q"] if q else ["query:Q", "query:R"], Fields=["fi"], LeafOnly=["fi"], Conds=["Query"], FragNames=["F1"], Spreads=["F1"],
                          ArgPool=["x=$v", "x=int1"] if q else ["x=$v", "x=int1", "x=$w"], VarPool=["v|Int||", "v|String||"])
     c["ops"] = dict(BASE, MaxNodes=3, MaxSecs=2, MaxAlias=1, OpHeads=["query:", "query:Q", "subscription:S", "mutation:Q"] if q else ["query:", "query:Q", "query:R", "mutation:Q", "subscription:S", "subscription:"],
